@@ -36,6 +36,8 @@ func c01(c *Ctx) {
 	sUpToDate(c, "R7/C06.R2", "(*Raft).requestVote", "RequestVoteRequest", "RequestVoteResponse", true, false)
 	c06R3(c, "R7/C06.R3")
 	sVoteIdentity(c, "R7/S-VOTEID")
+	sLockDiscipline(c, "R8/S-LOCK", "Raft", "raftState")
+	sAtomicOnly(c, "R8/S-ATOMIC")
 }
 
 // incrementsOf collects the "+1" instructions that feed a counter value
